@@ -121,7 +121,11 @@ func (w *world) do(fn func() slip.Object) obs {
 }
 
 func defunSrc(i int, v Ver) string {
-	return fmt.Sprintf("(defun @f%d (%s) %s)", i, strings.Join(v.Params, " "), v.Body)
+	def := fmt.Sprintf("(defun @f%d (%s) %s)", i, strings.Join(v.Params, " "), v.Body)
+	if 0 < len(v.Wrap) {
+		def = strings.Join(v.Wrap, " ") + " " + def + strings.Repeat(")", len(v.Wrap))
+	}
+	return def
 }
 
 func globalSrc(k int, v int64) string { return fmt.Sprintf("(defvar *@g%d* %d)", k, v) }
@@ -259,6 +263,17 @@ func genC(r *rand.Rand, i int, tier string) Case {
 // program per listed finding, so that the findings are re-observed (and
 // their signatures produced) whatever the seed.
 var probes = []Case{
+	{ // a defun inside a let that uses the let's variable, under a name the caller also uses; redefined once
+		Kind: "probe",
+		Fns: []Fn{
+			{Ret: "list", Rec: -1, Vers: []Ver{{Params: []string{"@a"}, Body: "(list (@f1 @a) @a)"}}},
+			{Ret: "int", Rec: -1, Vers: []Ver{
+				{Params: []string{"@k"}, Body: "(* @k @a)", Wrap: []string{"(let ((@a 100))"}},
+				{Params: []string{"@k"}, Body: "(+ @k @a @b)", Wrap: []string{"(let ((@a 7))", "(let* ((@b (+ @a 1)))"}}}},
+		},
+		Main: "(list (@f0 2) (@f1 3))", K: 3,
+		Hist: []Step{{Op: "run", Obj: -1}, {Op: "redef", Fn: 1, Ver: 1}, {Op: "run", Obj: 0}, {Op: "run", Obj: -1, Compiled: true}},
+	},
 	{ // a call with arguments compiled before the callee is defined
 		Kind: "probe",
 		Fns: []Fn{
@@ -347,6 +362,19 @@ func exec(x *fw.Ctx, c Case) {
 			x.Cover("fn:self-recursive")
 		default:
 			x.Cover("fn:mutually-recursive")
+		}
+	}
+	nested := false // some original definition is written inside let / let*
+	for _, fn := range c.Fns {
+		for vi, v := range fn.Vers {
+			if 0 < len(v.Wrap) {
+				x.Cover(fmt.Sprintf("fn:defun-inside-let depth=%d", len(v.Wrap)))
+				if vi == 0 {
+					nested = true
+				} else {
+					x.Cover("hist:redefinition-inside-let")
+				}
+			}
 		}
 	}
 
@@ -464,6 +492,12 @@ func exec(x *fw.Ctx, c Case) {
 		x.Cover("order:fwdargs=" + yn(fa) + ",fwdany=" + yn(fany))
 		for _, mode := range modes {
 			if mode == "load" && pi != 0 && pi != len(ps)-1 && pi != len(ps)/2 {
+				continue
+			}
+			if mode == "cstring" && nested {
+				// CompileString hands back the last form only: a defun that is not a
+				// top-level form is never evaluated in this mode
+				x.Cover("mode-not-applicable:cstring (defun inside let)")
 				continue
 			}
 			x.Cover("mode:" + mode)
